@@ -23,11 +23,12 @@ class ToGFA2:
     rpos = self.pos + self.overlap.length_on_reference()
     if rpos == self._lastpos_of("from_segment"):
       rpos = gfapy.LastPos(rpos)
-    return [self.pos, rpos]
+    return [self._mark_lastpos(self.pos, "from_segment"), rpos]
 
   @property
   def to_coords(self):
     """
     GFA2 positions of the alignment on the **to** segment
     """
-    return [0, self._lastpos_of("to_segment")]
+    return [self._mark_lastpos(0, "to_segment"),
+            self._lastpos_of("to_segment")]
